@@ -1,4 +1,4 @@
-import Lt.WalCodec
+import RedisGoModel.Wal.WalCodec
 /-! C16, one level up: a sequence of records written through the encoder's rolling CRC and read back through the
     decoder's check returns exactly what was written, then stops at the zero-filled preallocated tail. Abstract in the
     CRC update function (any function into 32 bits), so it holds for the concrete CRC-32C of Crc32c.lean. -/
